@@ -14,17 +14,21 @@ PROP = {
                   "filter; arbitrarily nested sub-aggregations, multi-valued and missing fields), every partition of the documents, every permutation and every re-grouping "
                   "(fold along any binary tree, empty results anywhere) of the parts give the same intermediate and final result (C14_partition_independent), and that result "
                   "equals the textbook evaluation `direct` (group the documents by bucket, count, recurse) over all documents -- exact for bucket keys, doc counts, "
-                  "count/sum/min/max over Z and avg over Q (C14_equals_direct, C14_collector_equals_direct, C14_finalize_collect_is_direct). The bucket position of "
+                  "count/sum/min/max over Z and avg over Q (C14_equals_direct, C14_collector_equals_direct, C14_finalize_collect_is_direct, C14_direct_order_independent); "
+                  "the bucket-limit guard yields the error or the complete direct result on every merge path, never a shortened one (C14_limits_error_not_truncate); "
+                  "range positions are the textbook [from,to) buckets (C14_range_bucket_is_interval), min/max/sum/count accumulators are exact. The bucket position of "
                   "histograms is a parameter of every theorem (the f64 formula of the code is not idealised). "
                   "Partial: terms are proved for segments that keep all their terms (segment_size >= distinct terms; the per-segment cut is not modelled, the harness "
-                  "requests a large segment_size or stays below the default); ties among equal sort values of terms buckets are resolved by key in the model while the code "
+                  "requests a large segment_size or stays below the default); with a per-segment cut only the relation `match_partial` is CHECKED on the implementation "
+                  "(returned counts are lower bounds short by at most doc_count_error_upper_bound, returned counts + sum_other_doc_count = all term occurrences), not proved; ties among equal sort values of terms buckets are resolved by key in the model while the code "
                   "uses an unstable sort -- the spec relation `match_res` accepts any correct top-`size` selection; values are integers (f64 sums exact); date_histogram, "
-                  "composite, percentiles, cardinality, extended_stats, top_hits, and the bucket/memory limits are not modelled. "
+                  "composite, percentiles, cardinality, extended_stats, top_hits and the memory limit are not modelled. "
                   "Known finding F141 (implementation, not model): sub-aggregations below a range/histogram bucket that receives a document with >= 2 values depend on the "
                   "segment layout (witness theorem C14_duplicate_doc_push_refuted, replayed on the implementation every run). "
                   "Tie/spec: AggregationCollector JSON of every generated (corpus, request, query) vs `direct` evaluated in Coq (spec) and vs the model's "
                   "collect/merge_fruits/finalize on a multi-segment partition (tie); 1-6 segment partitions; DistributedAggregationCollector fruits of separately searched "
-                  "indexes merged in permuted and regrouped orders and through postcard round trips must reproduce the single-segment JSON or be accepted by `match_res`.",
+                  "indexes merged in permuted and regrouped orders and through postcard round trips must reproduce the single-segment JSON or be accepted by `match_res`; "
+                  "bucket limits at count-1 / count / count+1 must give error / full result / full result.",
     "level_note": "Trusted: Coq kernel + vm_compute; harness (corpus/request generators, JSON -> observation printer, the Rust mirror of the F141 classifier used only for "
                   "routing: Coq re-evaluates the class on every reported case); serde_json/postcard round trips checked on the implementation only. "
                   "The model stores no zero-count range buckets in intermediate results (they are re-created at finalisation); observable results are identical for >= 1 segment. "
